@@ -1139,6 +1139,18 @@ def run(ctx):
 
 
 def replay(ctx, rep):
+    if "replay" not in rep:
+        # a `no-failing-input-found` file: broken obligations and/or diverging K requests
+        for b in rep.get("broken_obligations", []):
+            print("broken obligation:", b.get("what") if isinstance(b, dict) else b)
+        for k in rep.get("broken_correspondence", []):
+            if isinstance(k, dict) and "request" in k.get("replay", {}):
+                ans = ctx.lean_run("C06", [k["replay"]["request"]])[0]
+                print("call:", k["replay"].get("call"))
+                print("  model now:", ans[:300])
+                print("  recorded implementation outcome:", k["replay"].get("impl"))
+        run(ctx)
+        return
     r = rep["replay"]
     W = World()
     if "request" in r and r.get("kind") in ("mk", "infix"):
